@@ -6,6 +6,7 @@ import (
 	"go/constant"
 	"go/token"
 	"go/types"
+	"math"
 	"sort"
 	"strings"
 
@@ -1860,7 +1861,7 @@ func (w *World) ownedDecls(pkgKey string, root *types.Func) []*ast.FuncDecl {
 func pcValuesWhen(f *pcF, subj string) (ISet, bool) {
 	as := f.atoms()
 	if len(as) > 16 {
-		return nil, false
+		return pcValuesWhenWide(f, subj)
 	}
 	var out ISet
 	for m := 0; m < 1<<len(as); m++ {
@@ -1979,6 +1980,12 @@ type searchExit struct {
 	cond   *pcF // inLoop: from the innermost loop's header; else from the function entry
 	ret    *ssa.Return
 	list   ssa.Value // inLoop: the list scanned, when it is indexed by the loop's range counter (or handed to slices.ContainsFunc)
+}
+
+// RoundCond: the condition, within one iteration, under which the loop goes
+// round again through latch lt (reaching lt and taking its edge to the header).
+func (s *Sym) RoundCond(header, lt *ssa.BasicBlock, ctx *symCtx) *pcF {
+	return pcAndF(s.PathCond(header, lt, ctx), s.edgeCond(lt, header, ctx))
 }
 
 // pcIsIter: the atom says "the scan has a further element".
@@ -2518,4 +2525,61 @@ func stringDecision(w *World, f *ssa.Function, pidx int) (map[string]int64, stri
 		}
 	}
 	return out, ""
+}
+
+// pcValuesWhenWide is pcValuesWhen for formulas with many tests of the one
+// subject (a long switch): the integer line is cut at every bound that occurs
+// in a test of the subject, one value of each piece is tried, and the few
+// other atoms are enumerated.
+func pcValuesWhenWide(f *pcF, subj string) (ISet, bool) {
+	var own, other []*pcAtom
+	for _, a := range f.atoms() {
+		if a.subj == subj {
+			own = append(own, a)
+		} else {
+			other = append(other, a)
+		}
+	}
+	if len(other) > 12 || len(own) > 400 {
+		return nil, false
+	}
+	cuts := map[int64]bool{math.MinInt64: true}
+	for _, a := range own {
+		for _, iv := range a.set {
+			cuts[iv.lo] = true
+			if iv.hi < math.MaxInt64 {
+				cuts[iv.hi+1] = true
+			}
+		}
+	}
+	var starts []int64
+	for c := range cuts {
+		starts = append(starts, c)
+	}
+	sort.Slice(starts, func(i, j int) bool { return starts[i] < starts[j] })
+	all := f.atoms()
+	var out ISet
+	for i, lo := range starts {
+		hi := int64(math.MaxInt64)
+		if i+1 < len(starts) {
+			hi = starts[i+1] - 1
+		}
+		env := map[string]bool{}
+		for _, a := range own {
+			env[a.key] = a.set.contains(lo)
+		}
+		sat := false
+		for m := 0; m < 1<<len(other) && !sat; m++ {
+			for j, a := range other {
+				env[a.key] = m&(1<<j) != 0
+			}
+			if pcFeasible(all, env) && f.eval(env, map[*pcF]bool{}) {
+				sat = true
+			}
+		}
+		if sat {
+			out = out.union(ISet{{lo, hi}})
+		}
+	}
+	return out, true
 }
